@@ -40,6 +40,8 @@ type MVersion struct {
 	// Birth is the op index at which this version id was (last) created: used by the
 	// immutability oracle to recognise a legitimately replaced null version.
 	Birth int
+	// From is the id of the version an append extended ("" if it created the object).
+	From string
 }
 
 func (v *MVersion) Body() []byte {
@@ -320,6 +322,10 @@ func ckBad(o Op) bool { return strings.HasPrefix(o.Get("ck"), "bad:") }
 // nil): it is consulted only where the property statements leave a choice open.
 func (m *Model) Apply(o Op, hint *Res) Res {
 	m.Step++
+	return m.apply(o, hint)
+}
+
+func (m *Model) apply(o Op, hint *Res) Res {
 	// Implementation-only failures (internal errors that are not part of the S3 vocabulary) are
 	// outside the model: the operation is treated as failed and the model state stays as it was
 	// (whether it really left no trace is C03's question). They are counted by the engine.
@@ -377,7 +383,9 @@ func (m *Model) Apply(o Op, hint *Res) Res {
 			return Res{Err: "BadDigest"}
 		}
 		cur := b.Current(o.K)
+		fromMarker := ""
 		if cur != nil && cur.Marker {
+			fromMarker = "dm:" + cur.VID
 			cur = nil
 		}
 		if o.Has("off") {
@@ -389,8 +397,9 @@ func (m *Model) Apply(o Op, hint *Res) Res {
 				return Res{Err: "InvalidWriteOffset"}
 			}
 		}
-		nv := &MVersion{Multi: true}
+		nv := &MVersion{Multi: true, From: fromMarker}
 		if cur != nil {
+			nv.From = cur.VID
 			nv.Parts = append(nv.Parts, cur.Parts...)
 			nv.CT, nv.HasCT, nv.Sys, nv.User, nv.Tags, nv.Class = cur.CT, cur.HasCT, cloneMap(cur.Sys), cloneMap(cur.User), cloneMap(cur.Tags), cur.Class
 		}
@@ -668,16 +677,14 @@ func (m *Model) Apply(o Op, hint *Res) Res {
 	case "Mpu":
 		// macro: CreateUpload, UploadPart 1..n, Complete — one transition
 		r := Res{}
-		cr := m.Apply(Op{Kind: "CreateUpload", B: o.B, K: o.K, Opt: o.Opt}, subHint(hint, 0))
-		m.Step--
+		cr := m.apply(Op{Kind: "CreateUpload", B: o.B, K: o.K, Opt: o.Opt}, subHint(hint, 0))
 		r.Sub = append(r.Sub, cr)
 		if cr.Err != "" {
 			r.Err = cr.Err
 			return r
 		}
 		for i, p := range o.Parts {
-			pr := m.Apply(Op{Kind: "UploadPart", B: o.B, K: o.K, U: cr.UID, N: i + 1, Body: p}, subHint(hint, 1+i))
-			m.Step--
+			pr := m.apply(Op{Kind: "UploadPart", B: o.B, K: o.K, U: cr.UID, N: i + 1, Body: p}, subHint(hint, 1+i))
 			r.Sub = append(r.Sub, pr)
 			if pr.Err != "" {
 				r.Err = pr.Err
@@ -694,8 +701,7 @@ func (m *Model) Apply(o Op, hint *Res) Res {
 				co.Opt["ifm"] = o.Get("ifm")
 			}
 		}
-		fr := m.Apply(co, subHint(hint, 1+len(o.Parts)))
-		m.Step--
+		fr := m.apply(co, subHint(hint, 1+len(o.Parts)))
 		r.Sub = append(r.Sub, fr)
 		r.Err, r.VID, r.ETag, r.Ck = fr.Err, fr.VID, fr.ETag, fr.Ck
 		return r
